@@ -8,11 +8,14 @@ args = sys.argv[1:]
 jobs = 4
 if "-j" in args:
     jobs = int(args[args.index("-j") + 1]); del args[args.index("-j"):args.index("-j") + 2]
-ids = args or sorted(os.listdir(os.path.join(ROOT, "seeded")))
+KIND = "seeded"
+if "--dir" in args:
+    KIND = args[args.index("--dir") + 1]; del args[args.index("--dir"):args.index("--dir") + 2]
+ids = args or sorted(os.listdir(os.path.join(ROOT, KIND)))
 
 
 def run(i):
-    d = os.path.join(ROOT, "seeded", i)
+    d = os.path.join(ROOT, KIND, i)
     meta = json.load(open(os.path.join(d, "meta.json")))
     props = meta.get("check_properties") or [meta["property"]]
     scratch = "/tmp/evs/%s" % i
@@ -32,7 +35,9 @@ def run(i):
             pr = subprocess.run(["python3-vt", "-m", "pyvc.check", "--property", p, "--tier", "quick"], cwd=ROOT, capture_output=True, text=True, env=env)
             viol = [l.replace("violated obligation: ", "") for l in pr.stdout.splitlines() if l.startswith("violated obligation")]
             out[p] = dict(rc=pr.returncode, seconds=round(time.time() - t0, 1), violated=sorted(set(viol))[:6])
-            lines.append("%s %s rc=%d %.0fs %s" % (i, p, pr.returncode, time.time() - t0, "; ".join(sorted(set(viol))[:4])))
+            nv = [l for l in pr.stdout.splitlines() if l.startswith("NOT-VERIFIED")]
+            out[p]["not_verified"] = [l[:200] for l in nv][:4]
+            lines.append("%s %s rc=%d %.0fs %s%s" % (i, p, pr.returncode, time.time() - t0, "; ".join(sorted(set(viol))[:4]), (" | NOT-VERIFIED x%d" % len(nv)) if nv else ""))
             if pr.returncode not in (0, 1):
                 lines.append(pr.stdout[-800:] + pr.stderr[-800:])
         meta["detected_by"] = out
